@@ -694,7 +694,7 @@ int main(int argc, char *argv[])
       const size_t max_args_length = 256;
       size_t       argLength       = strlen(html_arg);
 
-      if (argLength > max_args_length)
+      if (argLength >= max_args_length)   // room for the terminating NUL
       {
          fprintf(stderr, "The buffer is to short for the tracking argument '%s'\n", html_arg);
          log_flush(true);
@@ -816,7 +816,7 @@ int main(int argc, char *argv[])
       size_t       argLength       = strlen(p_arg);
       const size_t max_args_length = 256;
 
-      if (argLength > max_args_length)
+      if (argLength >= max_args_length)   // room for the terminating NUL
       {
          fprintf(stderr, "The buffer is to short for the set argument '%s'\n", p_arg);
          log_flush(true);
